@@ -285,6 +285,10 @@ func (matrix *SparseReal32Matrix) AsVector() Vector {
   return matrix.AsSparseReal32Vector()
 }
 func (matrix *SparseReal32Matrix) storageLocation() uintptr {
+  if matrix.values.Dim() == 0 {
+    // no storage to point into: the matrix header identifies an empty matrix
+    return uintptr(unsafe.Pointer(matrix))
+  }
   return uintptr(unsafe.Pointer(matrix.values.AT(0)))
 }
 /* const interface
